@@ -78,8 +78,10 @@ class _Gen:
         self.s_retval = st.one_of(st.sampled_from([0, False, '', [], {}, 0.0, None, -0.0]), self.s_val, self.s_val)
         self.s_exc = st.sampled_from(EXC_NAMES)
         self.s_marker = st.integers(0, 10**6)
+        self.s_retval_py = st.one_of(self.s_retval, self.s_retval, st.sampled_from([{'$py': n} for n in sorted(jg.PY_FORMS)]))
         self.rpc_error = st.composite(lambda draw: self._rpc_error(draw))()
         self.behaviours = st.composite(lambda draw: self._behaviours(draw))()
+        self.behaviours_py = st.composite(lambda draw: self._behaviours(draw, True))()
 
     def _data(self, draw):
         k = draw(self.s_three)
@@ -94,11 +96,11 @@ class _Gen:
             return {'cls': 'JsonRpcError', 'code': draw(self.s_code), 'message': draw(self.s_msg), 'data': self._data(draw)}
         return {'cls': draw(self.s_typed), 'code': None, 'message': draw(self.s_msg_or_none), 'data': self._data(draw)}
 
-    def _behaviours(self, draw):
+    def _behaviours(self, draw, pyforms: bool = False):
         bits = draw(self.s_bits)
         out = {}
         if bits & 1:
-            out['ret'] = {'kind': 'return', 'value': draw(self.s_retval)}
+            out['ret'] = {'kind': 'return', 'value': draw(self.s_retval_py if pyforms else self.s_retval)}
         if bits & 2:
             out['rpc_err'] = {'kind': 'raise_rpc', 'error': self._rpc_error(draw)}
         if bits & 4:
@@ -124,9 +126,11 @@ def rpc_error_spec() -> st.SearchStrategy:
     return _gen().rpc_error
 
 
-def behaviours() -> st.SearchStrategy:
-    """per-case overrides of the standard registry's scripted behaviours"""
-    return _gen().behaviours
+def behaviours(pyforms: bool = False) -> st.SearchStrategy:
+    """per-case overrides of the standard registry's scripted behaviours; pyforms: 'ret' may also return python values that are
+    JSON-encodable without being JSON values (dicts with non-string keys, tuples) - not for the flask integration, whose JSON provider
+    sorts keys by default and therefore cannot write mixed-type keys (flask's choice, see DESIGN 7.4)"""
+    return _gen().behaviours_py if pyforms else _gen().behaviours
 
 
 def effective_behaviours(over: Dict[str, Any]) -> Dict[str, Any]:
